@@ -31,7 +31,8 @@ func (l *filterRuleList) addRule(fr *filterRule) {
 func (l *filterRuleList) matches(name string) bool {
 	for _, fr := range l.Filters {
 		if fr.matches(name) {
-			return true
+			// the first matching rule decides; an include rule keeps the entry
+			return fr.flag&filtruleInclude == 0
 		}
 	}
 	return false
